@@ -431,6 +431,23 @@ mod oracle {
         }
     }
 
+    /// C05 for every seed: the sweep of a seeded sampler's chains asks every coordinate exactly once on the freshest state,
+    /// whatever the seed (also seeds whose per-chain seeds wrap around u64::MAX) and whatever the dimension
+    #[test]
+    fn oracle_c05_sweep_for_every_seed() {
+        let tape: Vec<f64> = (0..17).map(|k| 10.0 + k as f64).collect();
+        for seed in [0u64, 1, 41, 1 << 63, u64::MAX - 12, u64::MAX - 3, u64::MAX - 2, u64::MAX - 1, u64::MAX] {
+            for d in 1..=12usize {
+                let init: Vec<f64> = (0..d).map(|i| i as f64).collect();
+                let mut s = GibbsSampler::new(OwnedTape { log: vec![], answers: tape.clone(), next: 0 }, vec![init.clone(); 3]).set_seed(seed);
+                for (c, chain) in s.chains_mut().iter_mut().enumerate() {
+                    check_owned_sweep(chain, &format!("seed {seed}, chain {c}, first step"));
+                    check_owned_sweep(chain, &format!("seed {seed}, chain {c}, second step"));
+                }
+            }
+        }
+    }
+
     // ---------------------------------------------------------------- C09 ------------
     /// a deterministic chain that counts its transitions: state = [steps, 10*id + steps]
     #[derive(Clone)]
@@ -562,6 +579,37 @@ mod oracle {
                 if other.run(6, 2).unwrap() == a {
                     witness(format!("{{\"oracle\":\"c07\",\"seed\":{seed},\"other_seed\":{other_seed},\"what\":\"two different seeds gave bit-identical output\"}}"));
                 }
+            }
+        }
+    }
+    /// a target on which wide proposals are rejected about half of the time (the acceptance draws matter)
+    #[derive(Clone)]
+    struct Bowl;
+    impl Target<f64, f64> for Bowl {
+        fn unnorm_logp(&self, p: &[f64]) -> f64 { -p.iter().map(|v| v * v).sum::<f64>() }
+    }
+    /// C07 where acceptance draws decide: a seeded MH sampler on a target that rejects proposals is reproducible across
+    /// repetitions and thread pools (every source of randomness on the run path is seeded, not only the proposal noise)
+    #[test]
+    fn oracle_c07_seeded_mh_reproducible_when_proposals_are_rejected() {
+        for seed in [0u64, 7, 42, u64::MAX - 1] {
+            let run = |threads: usize| {
+                let pool = rayon::ThreadPoolBuilder::new().num_threads(threads).build().unwrap();
+                pool.install(|| {
+                    let mut mh = MetropolisHastings::new(Bowl, IsotropicGaussian::<f64>::new(2.5), vec![vec![0.1, -0.2]; 5]).seed(seed);
+                    mh.run(40, 5).unwrap()
+                })
+            };
+            let a = run(1);
+            let (b, c) = (run(3), run(1));
+            // the scenario does reject: some consecutive draws of a chain are equal, some differ
+            let (mut stays, mut moves) = (0, 0);
+            for ch in 0..5 { for t in 1..40 { if a[[ch, t, 0]] == a[[ch, t - 1, 0]] { stays += 1 } else { moves += 1 } } }
+            if stays == 0 || moves == 0 {
+                continue;
+            }
+            if a != b || a != c {
+                witness(format!("{{\"oracle\":\"c07\",\"seed\":{seed},\"what\":\"a seeded MH run on a target that rejects about half of the proposals is not reproducible across repetitions / thread-pool sizes (an unseeded source of randomness on the run path)\"}}"));
             }
         }
     }
@@ -1767,6 +1815,42 @@ mod oracle {
         fn close(a: f64, b: f64) -> bool {
             (a - b).abs() <= 5e-6 * (1.0 + a.abs().max(b.abs()))
         }
+        /// C15 "the gradient handed to HMC is the true gradient": the gradient obtained the way HMC::step obtains it
+        /// (detach, require_grad, backward through unnorm_logp_batch) equals the central finite difference of the batched
+        /// log-density itself, row by row, for every built-in batched target and batch sizes 1, 2, 5
+        #[test]
+        fn oracle_c15_batched_gradient_is_the_gradient_of_the_batched_density() {
+            use mini_mcmc::distributions::{Rosenbrock2D, RosenbrockND};
+            fn check<G: BatchedGradientTarget<f64, B>>(name: &str, g: &G, rows: &[Vec<f64>]) {
+                let pos = t2(rows).detach().require_grad();
+                let lp = g.unnorm_logp_batch(pos.clone());
+                let grads = pos.grad(&lp.backward()).unwrap();
+                let grads = grads.to_data().to_vec::<f64>().unwrap();
+                let d = rows[0].len();
+                let val = |pts: &[Vec<f64>]| g.unnorm_logp_batch(t2(pts)).to_data().to_vec::<f64>().unwrap();
+                for j in 0..d {
+                    let h = 1e-4;
+                    let (mut up, mut dn) = (rows.to_vec(), rows.to_vec());
+                    for r in 0..rows.len() { up[r][j] += h; dn[r][j] -= h; }
+                    let (vu, vd) = (val(&up), val(&dn));
+                    for r in 0..rows.len() {
+                        let fd = (vu[r] - vd[r]) / (2.0 * h);
+                        let got = grads[r * d + j];
+                        if !((got - fd).abs() <= 2e-3 * (1.0 + fd.abs())) {
+                            witness(format!("{{\"oracle\":\"c15\",\"target\":\"{name}\",\"batch\":{},\"row\":{r},\"coordinate\":{j},\"x\":{:?},\"what\":\"the gradient HMC obtains through the batched log-density is {got}, the derivative of that log-density is {fd}\"}}", rows.len(), rows[r]));
+                        }
+                    }
+                }
+            }
+            let pts = [vec![0.3f64, -0.5], vec![1.5, 2.0], vec![-2.5, 1.25], vec![0.0, 0.0], vec![3.0, -1.0]];
+            for n in [1usize, 2, 5] {
+                check("DiffableGaussian2D", &DiffableGaussian2D::new([0.0f64, 1.0], [[4.0, 2.0], [2.0, 3.0]]), &pts[..n]);
+                check("DiffableGaussian2D (mean -3, 2)", &DiffableGaussian2D::new([-3.0f64, 2.0], [[1.0, 0.3], [0.3, 2.0]]), &pts[..n]);
+                check("Rosenbrock2D", &Rosenbrock2D { a: 1.0f64, b: 100.0f64 }, &pts[..n]);
+                let pts4: Vec<Vec<f64>> = pts[..n].iter().map(|p| vec![p[0], p[1], 0.5 * p[0], -0.25 * p[1]]).collect();
+                check("RosenbrockND", &RosenbrockND {}, &pts4);
+            }
+        }
         #[test]
         fn oracle_c15_builtin_densities_and_gradients() {
             let pts = [vec![0.0f64, 0.0], vec![0.5, -0.5], vec![3.0, 7.0], vec![-2.5, 1.25], vec![10.0, -10.0]];
@@ -2497,6 +2581,11 @@ mod oracle {
                 if *wi == T::zero() && (p != T::zero() || cat.logp(i) != T::neg_infinity()) {
                     witness(format!("{{\"oracle\":\"c16\",\"type\":\"{ty}\",\"weights\":\"{w:?}\",\"what\":\"category {i} has weight zero but stored probability {p:?} and logp {:?}\"}}", cat.logp(i)));
                 }
+                // the Target view of the distribution reports the same log-probability (and -inf for an invalid index)
+                let tl = <Categorical<T> as Target<usize, T>>::unnorm_logp(&cat, &[i]);
+                if !(tl == cat.logp(i) || (tl.is_nan() && cat.logp(i).is_nan())) {
+                    witness(format!("{{\"oracle\":\"c16\",\"type\":\"{ty}\",\"weights\":\"{w:?}\",\"what\":\"Target::unnorm_logp([{i}]) = {tl:?} but logp({i}) = {:?}\"}}", cat.logp(i)));
+                }
                 if *wi > T::zero() && !(cat.logp(i) <= T::from(1e-4).unwrap()) {
                     witness(format!("{{\"oracle\":\"c16\",\"type\":\"{ty}\",\"weights\":\"{w:?}\",\"what\":\"logp({i}) = {:?} is not a log-probability\"}}", cat.logp(i)));
                 }
@@ -2520,6 +2609,81 @@ mod oracle {
                 }
             }
         }
+    }
+    /// a `SmallRng` (xoshiro256++) whose first 64-bit output is `out` (s0 = s1 = s2 = 0: first output = rotl(s3, 23))
+    #[cfg(feature = "verif-hooks")]
+    fn rng_with_first_output(out: u64) -> Option<SmallRng> {
+        use rand::RngCore;
+        if out == 0 { return None; }
+        let mut seed = [0u8; 32];
+        seed[24..32].copy_from_slice(&out.rotate_right(23).to_le_bytes());
+        let g = SmallRng::from_seed(seed);
+        if g.clone().next_u64() == out { Some(g) } else { None }
+    }
+    /// C16 with the uniform variate INJECTED: every variate within 3 steps of a category boundary (and the largest one,
+    /// 1 - 2^-24 resp. 1 - 2^-53), for f32 and f64, weight vectors with zeros at the front, in the middle and at the end
+    #[cfg(feature = "verif-hooks")]
+    #[test]
+    fn oracle_c16_injected_boundary_variates() {
+        let mut pats: Vec<Vec<f64>> = vec![vec![0.1, 0.1, 0.1, 0.0], vec![1.0, 1.0, 1.0, 1.0, 1.0, 1.0, 0.0, 0.0], vec![0.0, 0.3, 0.0, 0.3, 0.3, 0.0], vec![0.7; 9], vec![2.0, 0.0, 5.0]];
+        for (n, zeros) in [(11usize, vec![10usize]), (17, vec![0, 8, 16]), (24, vec![23]), (33, vec![15, 31, 32])] {
+            for b in [1.0f64, 0.3, 0.7] {
+                let mut w = vec![b; n];
+                for z in &zeros { w[*z] = 0.0; }
+                pats.push(w);
+            }
+        }
+        let mut judged = 0usize;
+        for w in &pats {
+            // f32: variate = m * 2^-24 from the top 24 bits of the first output
+            {
+                let w32: Vec<f32> = w.iter().map(|v| *v as f32).collect();
+                let probs = Categorical::<f32>::new(w32.clone()).probs;
+                let mut ms: Vec<u64> = vec![1, (1 << 24) - 1, (1 << 24) - 2];
+                let mut cum = 0.0f32;
+                for p in &probs {
+                    cum += *p;
+                    let m = (cum as f64 * (1u64 << 24) as f64) as i64;
+                    for dlt in -3i64..=3 { let v = m + dlt; if v >= 1 && v < (1 << 24) { ms.push(v as u64); } }
+                }
+                for m in ms {
+                    let Some(g) = rng_with_first_output(m << 40) else { continue };
+                    let r: f32 = g.clone().random();
+                    if r != m as f32 / (1u64 << 24) as f32 { continue; }
+                    judged += 1;
+                    let mut cat = Categorical::<f32>::with_rng(w32.clone(), g);
+                    let k = cat.sample();
+                    let lo = cat.probs[..k.min(w.len())].iter().fold(0.0f32, |a, p| a + *p);
+                    if k >= w.len() || !(cat.probs[k] > 0.0) || !(lo - 1e-5 <= r && r <= lo + cat.probs[k] + 1e-5) {
+                        witness(format!("{{\"oracle\":\"c16\",\"type\":\"f32\",\"weights\":\"{w32:?}\",\"r\":\"{r:e}\",\"what\":\"for the injected variate the returned category {k} has probability {:?} and cumulative bracket starting at {lo}\"}}", cat.probs.get(k)));
+                    }
+                }
+            }
+            // f64: variate = m * 2^-53 from the top 53 bits
+            {
+                let probs = Categorical::<f64>::new(w.clone()).probs;
+                let mut ms: Vec<u64> = vec![1, (1 << 53) - 1, (1 << 53) - 2];
+                let mut cum = 0.0f64;
+                for p in &probs {
+                    cum += *p;
+                    let m = (cum * (1u64 << 53) as f64) as i64;
+                    for dlt in -3i64..=3 { let v = m + dlt; if v >= 1 && v < (1i64 << 53) { ms.push(v as u64); } }
+                }
+                for m in ms {
+                    let Some(g) = rng_with_first_output(m << 11) else { continue };
+                    let r: f64 = g.clone().random();
+                    if r != m as f64 / (1u64 << 53) as f64 { continue; }
+                    judged += 1;
+                    let mut cat = Categorical::<f64>::with_rng(w.clone(), g);
+                    let k = cat.sample();
+                    let lo = cat.probs[..k.min(w.len())].iter().fold(0.0f64, |a, p| a + *p);
+                    if k >= w.len() || !(cat.probs[k] > 0.0) || !(lo - 1e-12 <= r && r <= lo + cat.probs[k] + 1e-12) {
+                        witness(format!("{{\"oracle\":\"c16\",\"type\":\"f64\",\"weights\":\"{w:?}\",\"r\":\"{r:e}\",\"what\":\"for the injected variate the returned category {k} has probability {:?} and cumulative bracket starting at {lo}\"}}", cat.probs.get(k)));
+                    }
+                }
+            }
+        }
+        let _ = judged; // (if the generator's construction ever changes nothing is injected; the seed scan below still runs)
     }
     /// C16 for uniform variates right next to a category boundary (the places where rounding of the cumulative sums
     /// decides): seeds are scanned for a first f32 variate within a few ulps of a boundary of each weight vector
@@ -2708,6 +2872,30 @@ mod oracle {
         }
         if far == 0 || far > 80 {
             witness(format!("{{\"oracle\":\"c18\",\"entries\":{cnt},\"what\":\"{far} entries beyond 4.5 standard deviations (about 20 expected): the draws are not standard normal in the tails\"}}"));
+        }
+    }
+
+    /// C18, per-seed view: for every single seed the first entries are distinct numbers and, over many seeds, the very first
+    /// entry is negative about half of the time (a generator state built from too little of the seed fails both)
+    #[test]
+    fn oracle_c18_first_entries_across_seeds() {
+        let mut seeds: Vec<u64> = (1..=3000u64).collect();
+        seeds.extend((0..200u64).map(|k| k.wrapping_mul(0x9E37_79B9_7F4A_7C15).wrapping_add(0x1234_5678_9ABC_DEF1)));
+        let (mut neg_small, mut n_small, mut dup) = (0usize, 0usize, Vec::new());
+        for &seed in &seeds {
+            let v: Vec<Vec<f64>> = init_with_seed(1, 4, seed);
+            let row = &v[0];
+            if seed <= 3000 { n_small += 1; if row[0] < 0.0 { neg_small += 1; } }
+            if row[0] == row[1] || row[1] == row[2] || row[2] == row[3] || row[0] == row[2] {
+                dup.push(seed);
+            }
+        }
+        if !dup.is_empty() {
+            witness(format!("{{\"oracle\":\"c18\",\"seeds_with_repeated_entries\":{},\"example_seed\":{},\"what\":\"init_with_seed(1, 4, seed) returns the same number twice among its first entries: the entries are not independent draws\"}}", dup.len(), dup[0]));
+        }
+        let frac = neg_small as f64 / n_small as f64;
+        if !(0.42..=0.58).contains(&frac) {
+            witness(format!("{{\"oracle\":\"c18\",\"seeds\":\"1..=3000\",\"what\":\"the first entry is negative for {neg_small} of {n_small} seeds: over the seeds the first draw is not a standard-normal draw\"}}"));
         }
     }
 
